@@ -467,11 +467,37 @@ func VerifC17Op() {
 			r = ParOr(w, a, b, c)
 			want = vsym.Or(sa.has(y), vsym.Or(sb.has(y), sc.has(y)))
 		case 3:
-			r = ParOr(w, a, NewBitmap(), b)
+			list := []*Bitmap{a, NewBitmap(), b}
+			keep := append([]*Bitmap(nil), list...)
+			r = ParOr(w, list...)
 			want = vsym.Or(sa.has(y), sb.has(y))
+			same := true
+			for i := range list {
+				if list[i] != keep[i] {
+					same = false
+				}
+			}
+			vsym.Assert(same, "argument-slice-modified")
+		case 4: // only one non-empty member: the result is still a bitmap of its own
+			r = ParOr(w, NewBitmap(), a)
+			want = sa.has(y)
+		case 5: // a single member
+			r = FastOr(a)
+			want = sa.has(y)
+		case 6:
+			r = FastAnd(a)
+			want = sa.has(y)
 		}
 		v64Wf(r)
 		vsym.Assert(v64Has(r, y) == want, "exact-set")
+		if vsym.Param("g") >= 4 {
+			// value semantics: the result can be changed without changing the member
+			z := v64Arg()
+			r.Add(z)
+			r.Remove(y)
+			vsym.Assert(v64Has(a, z) == sa.has(z), "member-changed-by-mutating-the-result")
+			vsym.Assert(v64Has(a, y) == sa.has(y), "member-changed-by-mutating-the-result")
+		}
 	case op == 21: // copy-on-write clone, in-place AndNot that cancels an earlier bucket and moves a later one down, then a mutation
 		a.SetCopyOnWrite(true)
 		c := a.Clone()
